@@ -30,6 +30,10 @@ var c05Cases = []faCase{
 		patch: "@@\nvar f identifier\n@@\n+import \"sync\"\n\n-func f() {}\n+func f() { var mu sync.Mutex; _ = mu }\n",
 		minus: "package pkg\n\nimport \"os\"\n\nfunc first() int { return len(os.Args) }\n\n⟦func «f:foo»() {}⟧\n\nfunc last() { _ = 0 }\n",
 		plus:  "package pkg\n\nimport (\n\t\"os\"\n\t\"sync\"\n)\n\nfunc first() int { return len(os.Args) }\n\n⟦func «f»() { var mu sync.Mutex; _ = mu }⟧\n\nfunc last() { _ = 0 }\n"},
+	{name: "for-dots-labeled",
+		patch: "@@\nvar x expression\n@@\n for ... {\n   ...\n-  log(x)\n+  trace(x)\n   ...\n }\n",
+		minus: "package pkg\n\nfunc nested(m [][]int) {\nouter:\n\tfor i := range m {\n\t\tif i > 3 {\n\t\t\tcontinue outer\n\t\t}\n\t\tlog(m[i])\n\t\tbreak outer\n\t}\n\t⟦for {\n\t\tlog(«x:1»)\n\t}⟧\nscan:\n\tfor j := 0; j < 3; j++ {\n\t\tcontinue scan\n\t}\n}\n",
+		plus:  "package pkg\n\nfunc nested(m [][]int) {\nouter:\n\tfor i := range m {\n\t\tif i > 3 {\n\t\t\tcontinue outer\n\t\t}\n\t\tlog(m[i])\n\t\tbreak outer\n\t}\n\t⟦for {\n\t\ttrace(«x»)\n\t}⟧\nscan:\n\tfor j := 0; j < 3; j++ {\n\t\tcontinue scan\n\t}\n}\n"},
 	{name: "args-with-closures",
 		patch: "@@\nvar a, b expression\n@@\n-swap(a, b)\n+swap(b, a)\n",
 		minus: "package pkg\n\nvar t = table{\n\t{name: \"x\", run: func() int { return ⟦swap(«a:1», «b:func() int { return 2 }()»)⟧ }},\n\t{name: \"y\", run: nil},\n}\n\nfunc g() {\n\tfor i := 0; i < 3; i++ {\n\t\tfunc(j int) {\n\t\t\th(j, ⟦swap(«a:j», «b:i»)⟧, j)\n\t\t}(i)\n\t}\n}\n",
